@@ -104,10 +104,20 @@ func (t *gatedTxn) fail(i int) {
 }
 func (t *gatedTxn) Commit(ctx context.Context) ([]keyvalue.OpResult, error) {
 	yield("txn.Commit")
+	if t.g.plan.hit("Commit", "") {
+		// refused at commit time (quota, abort): the per-operation results are all fine and come back together
+		// with the error, the way an IndexedDB transaction reports it
+		res, _ := t.inner.Commit(ctx)
+		return res, errInjected
+	}
 	res, err := t.inner.Commit(ctx)
 	for i := range res {
 		if t.failed[i] {
-			res[i] = keyvalue.OpResult{Op: res[i].Op, Err: errInjected}
+			ferr := error(errInjected)
+			if t.g.plan != nil && t.g.plan.getErr != nil && i < len(t.paths) {
+				ferr = t.g.plan.getErr
+			}
+			res[i] = keyvalue.OpResult{Op: res[i].Op, Err: ferr}
 			continue
 		}
 		if res[i].Record != nil && i < len(t.paths) {
@@ -374,7 +384,7 @@ func genCOp(t *T, names []string, step int) cOp {
 		return cOp{Op: Op{Kind: "Mkdir", P: p, Perm: 0755}}
 	case 1:
 		flag := []int{hackpadfs.FlagReadWrite | hackpadfs.FlagCreate, hackpadfs.FlagReadWrite, hackpadfs.FlagWriteOnly | hackpadfs.FlagCreate | hackpadfs.FlagTruncate, hackpadfs.FlagReadWrite | hackpadfs.FlagAppend, hackpadfs.FlagWriteOnly | hackpadfs.FlagCreate | hackpadfs.FlagExclusive, hackpadfs.FlagReadOnly,
-			hackpadfs.FlagReadOnly | hackpadfs.FlagCreate | hackpadfs.FlagExclusive, hackpadfs.FlagReadOnly | hackpadfs.FlagCreate}[c.Draw(8)] // (creating does not depend on the access mode: the lock-file idiom opens read-only)
+			hackpadfs.FlagReadOnly | hackpadfs.FlagCreate | hackpadfs.FlagExclusive, hackpadfs.FlagReadOnly | hackpadfs.FlagCreate, hackpadfs.FlagReadOnly | hackpadfs.FlagTruncate}[c.Draw(9)] // (creating does not depend on the access mode: the lock-file idiom opens read-only)
 		return cOp{H: "HOpen", Op: Op{P: p, Flag: flag}}
 	case 2:
 		return cOp{Op: Op{Kind: "Remove", P: p}}
@@ -568,17 +578,29 @@ func genC15Program(t *T) (family int, init []Op, progs [][]cOp) {
 	if family == 1 && listTask < 0 && c.Chance(1, 6) {
 		// a reader and a rewriter of one file, each through its own handle: truncate-then-write is two
 		// operations, and a read between them sees the empty file, never a mix of old and new bytes
-		init = append(init, Op{Kind: "WriteFullFile", P: "b", Perm: 0644, Data: []byte("init-b-0123456789")})
+		content, lens := []byte("init-b-0123456789"), []int{16, 4, 8}
+		if c.Chance(1, 5) {
+			// a big file and big reads: paths that only exist beyond some size threshold (windowed copies, "large read" fast paths)
+			content, lens = uniqueData(0, 140000), []int{131072, 70000, 140000}
+		}
+		init = append(init, Op{Kind: "WriteFullFile", P: "b", Perm: 0644, Data: content})
 		progs[0] = []cOp{{H: "HOpen", Op: Op{P: "b", Flag: hackpadfs.FlagReadOnly}}}
 		for j := 0; j < 1+c.Draw(2); j++ {
 			if c.Chance(1, 2) {
-				progs[0] = append(progs[0], cOp{H: "HReadAt", N: []int{16, 4, 8}[c.Draw(3)], Op: Op{Mtime: int64([]int{0, 2}[c.Draw(2)])}})
+				progs[0] = append(progs[0], cOp{H: "HReadAt", N: lens[c.Draw(3)], Op: Op{Mtime: int64([]int{0, 2}[c.Draw(2)])}})
 			} else {
-				progs[0] = append(progs[0], cOp{H: "HRead", N: []int{16, 4, 8}[c.Draw(3)]})
+				progs[0] = append(progs[0], cOp{H: "HRead", N: lens[c.Draw(3)]})
 			}
 		}
 		step++
-		progs[1] = []cOp{{H: "HOpen", Op: Op{P: "b", Flag: hackpadfs.FlagReadWrite}}, {H: "HTruncate", N: 0}, {H: "HWrite", Op: Op{Data: uniqueData(step, []int{3, 1, 9}[c.Draw(3)])}}}
+		progs[1] = []cOp{{H: "HOpen", Op: Op{P: "b", Flag: hackpadfs.FlagReadWrite}}, {H: "HTruncate", N: []int{0, 0, 5}[c.Draw(3)]}, {H: "HWrite", Op: Op{Data: uniqueData(step, []int{3, 1, 9}[c.Draw(3)])}}}
+		if c.Chance(1, 4) {
+			// or a truncating open, with whatever access mode (O_TRUNC takes effect even read-only)
+			progs[1] = []cOp{{H: "HOpen", Op: Op{P: "b", Flag: []int{hackpadfs.FlagReadOnly, hackpadfs.FlagWriteOnly, hackpadfs.FlagReadWrite}[c.Draw(3)] | hackpadfs.FlagTruncate}}}
+		} else if c.Chance(1, 3) {
+			// or an in-place overwrite further in
+			progs[1][1] = cOp{H: "HWriteAt", N: []int{0, 2, 7}[c.Draw(3)], Op: Op{Data: uniqueData(step+1, 9)}}
+		}
 	} else if family == 1 && listTask < 0 && c.Chance(1, 3) {
 		// twins: the second task starts with the very operation the first one starts with (two creates, two
 		// removes, two renames of one name: the shortest check-then-act races)
